@@ -94,6 +94,11 @@ FanTop == S("fan_top", << Sr("kid_c", <<0, 0>>, FALSE, 0), Ar("kid_a", <<0, 20>>
 Fanout == { << FanTop, Kid("kid_a", 1), Kid("kid_b", 2), Kid("kid_c", 3), Kid("kid_d", 4) >>,
             << Kid("kid_d", 4), Kid("kid_b", 2), FanTop, Kid("kid_a", 1), Kid("kid_c", 3) >>,
             << Kid("kid_a", 1), Kid("kid_b", 2), Kid("kid_c", 3), Kid("kid_d", 4), FanTop >> }
+\* the far end of the 32-bit coordinate range: a triangle whose hypotenuse passes within one unit of area of two labels, one
+\* on each side (cross products of 64 bits: GdsSemantics.Hits switches to WideContains)
+WideLibs == { << S("w", << B(3, 0, << <<0, 0>>, <<X, 0>>, <<X, X + 2>> >>), Tx(3, <<(X \div 2) + 1, (X + 2) \div 2>>, "inside"),
+                         Tx(3, <<X \div 2, (X + 2) \div 2>>, "outside") >>) >> : X \in {300000001, 1000000001} }
+        \cup { << S("w", << B(3, 0, << <<-X, -5>>, <<0, -5>>, <<0, X - 3>> >>), Tx(3, <<-1, X - 5>>, "inside"), Tx(3, <<-2, X - 4>>, "outside") >>) >> : X \in {300000001} }
 \* names far longer than the format's traditional 32 characters, sharing a long common prefix (names are content)
 LongP == "structure_with_a_long_hierarchical_name_of_more_than_thirtytwo_characters_"
 LongNames == { << Kid(LongP \o "a", 1), Kid(LongP \o "b", 2),
@@ -113,7 +118,7 @@ Deep(i) ==
       l3 == S("lvl3", << Sr("lvl2", a3, o3[1], o3[2]), Sr("leaf", a1, o4[1], o4[2]), Pa(7, 0, 2, << <<0, 0>>, <<0, 6>>, <<4, 6>> >>) >>)
   IN Permute(<< l3, l2, l1, Leaf >>, RandomElement(Perms4))
 DeepLibs == { Deep(i) : i \in 1..NDeep }
-Libs == Hier \cup RectOrders \cup NonRect \cup Fanout \cup LongNames \cup DeepLibs \cup Crowded \cup Arrays \cup Labels \cup Mal \cup Mag1 \cup Lenient
+Libs == Hier \cup RectOrders \cup NonRect \cup Fanout \cup LongNames \cup WideLibs \cup DeepLibs \cup Crowded \cup Arrays \cup Labels \cup Mal \cup Mag1 \cup Lenient
 Init == c \in Libs
 Next == UNCHANGED c
 Spec == Init /\ [][Next]_c
